@@ -6,6 +6,7 @@ import (
 	"math/rand/v2"
 	"net"
 	"reflect"
+	"slices"
 	"strings"
 
 	"golang.org/x/net/dns/dnsmessage"
@@ -271,6 +272,50 @@ func genC13(env *core.Env, emit func(core.Case)) {
 			Sample: map[string]any{"stream": "foreign-large", "answers": nrec, "len": len(d.B)}})
 		env.Count("foreign-large/" + connh0(dec))
 	}
+	// messages without a question (what a compressing encoder writes for a bare record set, an UPDATE or a
+	// NOTIFY-like message): the first owner name sits at offset 12 and the later ones point there (c0 0c)
+	for _, nrec := range []int{1, 2, 3, 5} {
+		for _, section := range []int{0, 1, 2} {
+			idx++
+			counts := [3]int{}
+			counts[section] = nrec
+			b := []byte{byte(r.IntN(256)), byte(r.IntN(256)), 0x81, 0x80, 0, 0, 0, byte(counts[0]), 0, byte(counts[1]), 0, byte(counts[2])}
+			owner := ""
+			for j := 0; j < nrec; j++ {
+				if j == 0 {
+					for _, l := range []string{string(gen.RandLabel(r)), string(gen.RandLabel(r)), "example"} {
+						b = append(b, byte(len(l)))
+						b = append(b, l...)
+						owner += l + "."
+					}
+					b = append(b, 0)
+				} else {
+					b = append(b, 0xc0, 0x0c)
+				}
+				b = append(b, 0, 1, 0, 1, 0, 0, 0, byte(60+j), 0, 4, 10, 0, byte(section), byte(j))
+			}
+			owner = strings.TrimSuffix(owner, ".")
+			dec := dnsDecodeText(b)
+			w := ""
+			if m, err := dns.DecodeMessage(b); err != nil {
+				w = fmt.Sprintf("a message without a question (%d records, owners compressed against the first) does not decode: %v", nrec, err)
+			} else {
+				for _, rr := range slices.Concat(m.Answer, m.Authority, m.Additional) {
+					if !strings.EqualFold(rr.Name, owner) && w == "" {
+						w = fmt.Sprintf("owner decoded as %q, the bytes say %q (pointer to offset 12 in a message without a question)", rr.Name, owner)
+					}
+				}
+				if len(m.Answer)+len(m.Authority)+len(m.Additional) != nrec && w == "" {
+					w = fmt.Sprintf("%d records decoded, %d sent", len(m.Answer)+len(m.Authority)+len(m.Additional), nrec)
+				}
+			}
+			ops := []core.Op{{Line: "dns-decode " + core.Hex(b), Kind: 'M', Want: dec, Note: "DecodeMessage of a message without a question"},
+				{Kind: 'X', Note: "pointers to offset 12 mean the bytes at offset 12, whatever they belong to", Want: w}}
+			emit(core.Case{Name: fmt.Sprintf("no-question/%d", idx), Stream: "no-question", Ops: ops, Key: "no-question", Sig: fmt.Sprintf("no-question/%d/%d", nrec, section),
+				Sample: map[string]any{"stream": "no-question", "records": nrec, "section": section, "len": len(b)}})
+			env.Count("no-question/" + connh0(dec))
+		}
+	}
 	// HTTPS / SVCB records as other encoders write them: SvcParamKeys in increasing order starting with
 	// key 0 (mandatory), keys this package has no field for (dohpath 7, private-use 65000), any target
 	for i := 0; i < env.Pick(300, 4000); i++ {
@@ -388,6 +433,9 @@ func genC13(env *core.Env, emit func(core.Case)) {
 				name += "." // the same name written as an absolute one (the root: ".") - one trailing dot is not a label
 			}
 			m := &dns.Message{ID: uint16(r.IntN(65536)), RD: 1, Question: []dns.Question{{Name: name, Type: 65, Class: 1}}}
+			if (nl+rep)%3 == 0 {
+				m.QR, m.RA = 1, 1 // a server pads its responses with the same call
+			}
 			optKind := r.IntN(4)
 			switch optKind {
 			case 1:
